@@ -30,8 +30,8 @@ CHUNK = {'quick': 8, 'thorough': 8}
 MANIFEST = {'engines': ['E1-enum', 'E2-explore'],
             'technique': 'stateless exhaustive exploration of all pseudo-random answers of the real LAO* on enumerated MDPs vs exact optimum'}
 HEUR = ['bound', 'exact', 'exact+half', 'half_on_absorbing']
-SLAB = ['int', 'rev', 'str', 'mix', 'tup', 'fd']
-ALAB = ['ab', 'rev', 'ab', 'mix', 'rev', 'fd']
+SLAB = ['int', 'rev', 'str', 'mix', 'tup', 'fd', 'falsy']
+ALAB = ['ab', 'rev', 'ab', 'mix', 'rev', 'fd', 'falsy']
 
 
 def bounds(tier):
@@ -47,6 +47,7 @@ def spec_items(tier):
     if tier == 'quick':
         yield from build.enum_mdps(2, AS, 1, [F(-1), F(1)], [(), (1,)], [build.INIT_MENU[2][0], build.INIT_MENU[2][2]], [F(9, 10)])
         yield from build.enum_mdps(2, AS, 1, [F(-1), F(0)], [(), (1,)], [build.INIT_MENU[2][0], build.INIT_MENU[2][2]], [F(1)])
+        yield from build.enum_mdps(2, AS, 1, [F(0), F(1)], [()], [build.INIT_MENU[2][0]], [F(9, 10)])      # sparse rewards: V* = 0 at non-absorbing states
         yield from build.chain_mdps(3, [F(1)], [F(-1), F(0)])
     else:
         yield from build.enum_mdps(2, [('a',), ('b',), ('a', 'b')], 1, [F(-1), F(0), F(1)], [(), (1,), (0,)], build.INIT_MENU[2][:3:2],
@@ -60,7 +61,7 @@ def items(tier, seed):
         if i % 3 == 2:
             it = build.with_ns_rewards(it)
         flags = [(i + seed) % 4] if tier == 'quick' else [(i + seed) % 4, (i + seed + 1 + (i // 4) % 3) % 4]
-        yield (it, (i + seed) % 6, tuple(sorted(set(flags))))
+        yield (it, (i + seed) % len(SLAB), tuple(sorted(set(flags))))
 
 
 def make_heuristic(kind, spec, V, mdp):
